@@ -16,15 +16,44 @@ def G(what, why, **kw):
     e={"guarded": what, "why": why}; e.update(kw); return e
 C12="no no-panic theorem for the CFG lifting yet (agent-C12: Model.Lift has these as Panic sites, lift_never_panics is in progress); exercised by the C12/C13 correspondence and by the C01 totality engine. Upgrade to C12's theorem when it exists"
 SSA="SSA construction (insert_phi_statements / insert_ssa_variables): Model.Ssa mirrors it with explicit SPanic/SFuel sites, but there is no totality theorem for it (C14's six theorems are about the validator of its output); mirror and implementation agree, panics included, on the C14 correspondence; exercised by every analysed definition of the C01 engine"
+UNC="no non-test code of the workspace calls it (checked on every run: `uncalled`)"
 for s in sites:
     f,fn,k,t=s["file"],s["fn"],s["kind"],s["text"]
     e=None
-    if f.endswith("modular_arithmetic.rs"):
+    m_=fn.split("::")[-1]
+    # ---- third audit: the files anchored since the scan covers the whole crate set ----
+    if f.endswith("abstract_syntax_tree/ast.rs"):
+        if m_=="get_file_id":
+            e=D("C18_desugar_never_panics","Meta::get_file_id panics on a meta without a file id. Its callers are the desugarer (name generation for anonymous components: site 1801 site_get_file_id of Model.Desugar) and the into_report of AnonymousComponentError / TupleError in parser/src/errors.rs on a meta of the tree (site 1803 site_report_file_id); remove_syntactic_sugar returns DOk under wf_template / meta_known (every meta of a parsed definition carries the file id: parse_file calls fill; evaluated by C18's engine and, third audit, by the stage `chain` of ./check C01 on C01's own inputs). The other files that call a method of this NAME call TemplateData::get_file_id / FunctionData::get_file_id (plain field reads); a call from any further file is reported (`called_only_from`)")
+            e["called_only_from"]={"method":"get_file_id","files":["parser/src/errors.rs","parser/src/syntax_sugar_remover.rs","program_structure/src/program_library/program_merger.rs","program_structure/src/control_flow_graph/parameters.rs","program_analysis/src/analysis_runner.rs"]}
+        elif fn.startswith("TypeKnowledge"):
+            e=G("not called","type knowledge of the SYNTAX tree (inherited from circom's type checker): a TypeKnowledge is reached only through Meta::get_type_knowledge / get_mut_type_knowledge (the field is private); "+UNC+". The `type_knowledge()` the analysis passes call belongs to the IR meta (intermediate_representation/type_meta.rs), another type",uncalled=["reduces_to","get_type_knowledge","get_mut_type_knowledge"])
+        else:
+            e=G("not called","memory knowledge of the SYNTAX tree (inherited from circom's code generator): a MemoryKnowledge is reached only through Meta::get_memory_knowledge / get_mut_memory_knowledge (the field is private); "+UNC,uncalled=[m_,"get_memory_knowledge","get_mut_memory_knowledge"])
+    elif f.endswith("program_library/function_data.rs") or f.endswith("program_library/template_data.rs"):
+        e=G("not called","inherited from circom; "+UNC+". (The desugarer reads bodies with get_body and has its own `body is not a block` site, site_body_not_block of Model.Desugar)",uncalled=m_)
+    elif f.endswith("program_library/program_archive.rs") or f.endswith("program_library/template_library.rs") or (f=="parser/src/lib.rs" and fn=="duplicate_definitions"):
+        if k=="index":
+            own={"ProgramArchive::new":"program_contents.keys().copied().collect();","duplicate_definitions":"definitions.keys().copied().collect();"}[fn]
+            e=G("own key","added by the repair of the duplicate-definition defect (/repo f1ec9dc): the map is indexed by `file_id`, which ranges over a sorted copy of the map's OWN keys (`file_ids`), and the map is borrowed immutably in between, so the key is present",guard_text=own)
+        else:
+            e=G("not called","assert + unwrap accessor inherited from circom; the analysis reads the definition maps through get_templates / get_functions; "+UNC,uncalled=m_)
+    elif f.endswith("utils/constants.rs"):
+        if k=="expect": e=D("C11_primes_are_documented","parse_bytes(.., 10) of one of three string literals; Gen.Primes is regenerated from these literals as decimal numbers on every run (the generator fails on anything but decimal digits) and C11_primes_are_documented pins their values, so the parse is Some"); e["guard_text"]="let prime = match self {"
+        else: e=G("full-range slice","`[..]` cannot be out of range",guard_text="[..]")
+    elif k=="add" and f.endswith("syntax_sugar_remover.rs"):
+        e=G("string concatenation","`String + &str`: concatenation, not integer arithmetic (allocation only)",guard_text='"anon_var_".to_string()')
+    elif k=="add" and f.endswith("definition_complexity.rs"):
+        e=X("resource bound, not proved: `edges` sums the sizes of the successor sets of one graph; every counted element is a live `usize` in a HashSet (8 bytes of address space), all sets exist at once, so the sum stays below 2^61")
+    elif k=="add" and f.endswith("writers.rs"):
+        e=X("resource bound, not proved: a counter of the reports written during one run; an overflow needs 2^64 reports")
+    elif f.endswith("modular_arithmetic.rs"):
         why={"modulus":"`b` is the prime (hypothesis 2 < p of the theorem) or the non-zero reduced divisor handed over by mod_op after its zero check; BigInt `%` panics only for a zero divisor",
              "mask":"BigInt subtraction is arbitrary precision","sub":"BigInt subtraction is arbitrary precision",
              "complement_256":"from_radix_le fails only on an empty digit vector or a digit >= radix; the vector holds exactly 256 digits 0/1 (mirrored by Model.Field.compl)",
              "shift_l":"division by the constant 2 / BigInt subtraction","shift_r":"divisor is 2 or a power of two / BigInt subtraction",
-             "val":"division by the constant 2 / BigInt subtraction","not":"remainder by the constant 2","bool_or":"remainder by the constant 2"}.get(fn,"mirrored by Model.Field")
+             "val":"division by the constant 2 / BigInt subtraction","not":"remainder by the constant 2","bool_or":"remainder by the constant 2; BigInt addition is arbitrary precision",
+             "add":"BigInt addition is arbitrary precision","mul":"BigInt multiplication is arbitrary precision","bool_and":"BigInt multiplication is arbitrary precision"}.get(fn,"mirrored by Model.Field")
         e=D("C16_field_never_panics",why+"; Model.Field mirrors the function and the C16 differential run compares panics as output values")
         if fn=="idiv": e["guard_text"]="if right == zero {"
         if fn=="modulus": e["guard_in"]={"file":f,"text":"if right == zero { Err(ArithmeticError::DivisionByZero) } else { Ok(modulus(&left, &right)) }"}
@@ -138,6 +167,7 @@ for s in sites:
     elif f.endswith("writers.rs"):
         e=X("fails only when stdout cannot be written (closed pipe, full disk): run-time environment, DESIGN §5.3; termcolor/codespan internals are observed only")
     assert e is not None, s["key"]
+    e["text"]=s["text"]; e["shape"]=s["shape"]      # secondary hints (third audit): line text for the reader, statement shape for the check
     M[s["key"]]=e
 # second audit: the sites that the content-carrying lifting mirror Model.LiftFull has (renaming on the real tree, lifting,
 # IR lifting, declarations) are discharged by its totality theorems, merged into props/C01.v
@@ -147,11 +177,11 @@ for k,v in M.items():
         v["discharged_by"]=LF+" "+v["discharged_by"]
         v["why"]="Model.LiftFull (content-carrying mirror of try_lift_impl, compared with the real into_cfg on every run) reaches this site exactly when Model.Lift does (lock-step relation of Proofs.LiftFullTotal); "+v["why"]
     elif "unique_vars.rs::ensure_unique_variables::assert" in k:
-        M[k]=D(LF+" C01_desugar_output_has_desugared_shape","site 3184 of Model.LiftFull.ensure_unique_variables; definition_wf asks the body to be a block, which C01_desugar_output_has_desugared_shape proves of every body the desugarer hands on (templates) and the ParseBlock production of lang.lalrpop builds for every definition (functions: function_ok of C01_pipeline_mirrors_never_panic, evaluated per definition by the chain stage)")
+        M[k]=dict(D(LF+" C01_desugar_output_has_desugared_shape","site 3184 of Model.LiftFull.ensure_unique_variables; definition_wf asks the body to be a block, which C01_desugar_output_has_desugared_shape proves of every body the desugarer hands on (templates) and the ParseBlock production of lang.lalrpop builds for every definition (functions: function_ok of C01_pipeline_mirrors_never_panic, evaluated per definition by the chain stage)"), text=v["text"], shape=v["shape"])
     elif "declarations.rs::Declarations::add_declaration::assert" in k:
         v["discharged_by"]=LF+" "+v["discharged_by"]
         v["why"]="site 2017 of Model.LiftFull.decls_add: excluded by the clause names_distinct of definition_wf (the keys after the renaming mirror are pairwise different: evaluated on every explored definition by the chain stage of ./check C01 and the liftfull stage of ./check C13); for C10's own mirror of the renaming pass: "+v["why"]
-    elif "intermediate_representation/lifting.rs::ast::" in k and "panic!" in k:
+    elif "intermediate_representation/lifting.rs::ast::" in k and "::panic#" in k:
         v["discharged_by"]=LF+" C01_sugar_free_spec_is_wf_clause "+v["discharged_by"]
         v["why"]="sites 1119 / 1193 of Model.LiftFull.lift_stmt / lift_expr (every TryLift impl mirrored, catch-all arms included): not reached on a body that meets stmt_sugar_free, which C18's sugar-freeness implies (C01_sugar_free_spec_is_wf_clause); "+v["why"]
     elif "environment.rs::RawEnvironment::add_variable::" in k or "environment.rs::RawEnvironment::remove_variable_block::assert" in k:
